@@ -131,6 +131,22 @@ def with_helpers_inlined(ctx, make_ctx):
     if not overlay:
         return make_ctx(None)
     ctx2 = make_ctx(overlay)
+    helpers = set(new_functions(ctx))
+    # writing a helper out can expose a call of another new function (a callable handed to the helper, a helper calling a helper)
+    for _ in range(3):
+        if not new_functions(ctx2):
+            break
+        try:
+            more, touched2 = build_overlay(ctx2)
+        except Exception as e:
+            import sys
+            print("NOTE: helper inlining stopped early (%s: %s)" % (type(e).__name__, e), file=sys.stderr)
+            break
+        if not more:
+            break
+        overlay = dict(overlay, **more)
+        touched = set(touched) | set(touched2)
+        ctx2 = make_ctx(overlay)
     ctx2.inlined_touched = touched
-    ctx2.inlined_helpers = set(new_functions(ctx))
+    ctx2.inlined_helpers = helpers
     return ctx2
